@@ -1,5 +1,6 @@
 import MesonModel.Version.Model
 import MesonModel.Version.Gate
+import MesonModel.Version.Entry
 import Driver.Proto
 namespace Driver.Version
 open MesonModel.Version Driver
@@ -32,33 +33,59 @@ clause (truth value, comma separated encoded constraint strings of its meson.ver
 empty = no such call), `E` opens the else block, `F` closes the statement, `L1`/`L2` … `M` a foreach over one/two items, `Xb`/`Xc`/`Xd`
 break / continue / subdir_done(). -/
 
+instance : Inhabited GExpr := ⟨.plain false⟩
+
+/-- condition expressions in prefix form, tokens separated by `/`: `c<constraints>` a
+`meson.version().version_compare(…)` call, `t`/`f` an opaque boolean, `n` not, `a` and, `o` or,
+`q<lit><ne>` comparison of the operand with the boolean literal `lit` (`ne` = 1 for `!=`) -/
+partial def parseExpr (ts : List String) : GExpr × List String :=
+  match ts with
+  | [] => (.plain false, [])
+  | t :: rest =>
+    if t == "t" then (.plain true, rest)
+    else if t == "f" then (.plain false, rest)
+    else if t == "n" then
+      let (e, r) := parseExpr rest
+      (.not e, r)
+    else if t == "a" || t == "o" then
+      let (l, r1) := parseExpr rest
+      let (r, r2) := parseExpr r1
+      (if t == "a" then .and l r else .or l r, r2)
+    else if t.startsWith "q" then
+      let (e, r) := parseExpr rest
+      (.cmpb e ((t.drop 1).toString.startsWith "1") ((t.drop 2).toString.startsWith "1"), r)
+    else if t.startsWith "c" then (.check (decodeStrList (t.drop 1).toString), rest)
+    else (.plain false, rest)
+
+def parseExprField (f : String) : GExpr := (parseExpr ((f.splitOn "/").filter (fun t => !t.isEmpty))).1
+
 instance : Inhabited GBlock := ⟨.nil⟩
 instance : Inhabited GClauses := ⟨.els .nil⟩
 
 mutual
-  partial def parseBlock (ts : List String) : GBlock × List String :=
+  partial def parseBlock (cv : List Char) (ts : List String) : GBlock × List String :=
     match ts with
     | [] => (.nil, [])
     | t :: rest =>
       if t.startsWith "P" then
-        let (b, r) := parseBlock rest
+        let (b, r) := parseBlock cv rest
         (.cons (.probe ((t.drop 1).toString.toNat?.getD 0)) b, r)
       else if t == "I" then
-        let (cs, r1) := parseClauses rest
-        let (b, r2) := parseBlock r1
+        let (cs, r1) := parseClauses cv rest
+        let (b, r2) := parseBlock cv r1
         (.cons (.ifs cs) b, r2)
       else if t == "Xb" || t == "Xc" || t == "Xd" then
-        let (b, r) := parseBlock rest
+        let (b, r) := parseBlock cv rest
         (.cons (.exit (if t == "Xb" then .brk else if t == "Xc" then .cont else .done)) b, r)
       else if t == "L1" || t == "L2" then
-        let (body, r1) := parseBlock rest
+        let (body, r1) := parseBlock cv rest
         let r1 := match r1 with
           | "M" :: r => r
           | r => r
-        let (b, r2) := parseBlock r1
+        let (b, r2) := parseBlock cv r1
         (.cons (if t == "L1" then .loop1 body else .loop2 body) b, r2)
       else (.nil, ts)
-  partial def parseClauses (ts : List String) : GClauses × List String :=
+  partial def parseClauses (cv : List Char) (ts : List String) : GClauses × List String :=
     match ts with
     | [] => (.els .nil, [])
     | t :: rest =>
@@ -66,11 +93,16 @@ mutual
         let val := (t.drop 1).toString.startsWith "1"
         let checks := decodeStrList ((t.splitOn ":").getD 1 "")
         let own := if checks.isEmpty then none else some (versionCheckToRange checks)
-        let (b, r1) := parseBlock rest
-        let (cs, r2) := parseClauses r1
+        let (b, r1) := parseBlock cv rest
+        let (cs, r2) := parseClauses cv r1
         (.cons ⟨own, val⟩ b cs, r2)
+      else if t.startsWith "K:" then
+        let c := (parseExprField (t.drop 2).toString).toCond cv
+        let (b, r1) := parseBlock cv rest
+        let (cs, r2) := parseClauses cv r1
+        (.cons c b cs, r2)
       else if t == "E" then
-        let (b, r1) := parseBlock rest
+        let (b, r1) := parseBlock cv rest
         match r1 with
         | "F" :: r2 => (.els b, r2)
         | _ => (.els b, r1)
@@ -103,12 +135,36 @@ def handle (cmd : String) (fs : List String) : String :=
   | "cwmr", [r, m] => boolStr (condWithMinRange (parseRange r) (decodeStr m))
   | "gate", [pv, prog] =>
     let base := versionCheckToRange [decodeStr pv]
-    let (b, _) := parseBlock ((prog.splitOn ";").filter (fun t => !t.isEmpty))
+    let (b, _) := parseBlock [] ((prog.splitOn ";").filter (fun t => !t.isEmpty))
     let r := runBlock b base none
     showLog r.log ++ (match r.sig with | .done => "#done" | .none => "" | .brk => "#brk" | .cont => "#cont")
+  | "gatex", [pv, cv, prog] =>
+    let base := versionCheckToRange [decodeStr pv]
+    let (b, _) := parseBlock (decodeStr cv) ((prog.splitOn ";").filter (fun t => !t.isEmpty))
+    let r := runBlock b base none
+    showLog r.log ++ (match r.sig with | .done => "#done" | .none => "" | .brk => "#brk" | .cont => "#cont")
+  | "mv", [v, cs] =>
+    let r := mvCompare (decodeStr v) (decodeStrList cs) none
+    s!"{boolStr r.1};{match r.2 with | some x => showRange x | none => "None"}"
+  | "entry", [kind, v, cs] =>
+    let v := decodeStr v; let cs := decodeStrList cs
+    if kind == "str" then boolStr (strCompare v cs)
+    else if kind == "mv" then boolStr (mvCompare v cs none).1
+    else if kind == "dep" then boolStr (depCheck v cs)
+    else if kind == "sub" then boolStr (subprojectCheck v cs)
+    else if kind == "prog" then boolStr (programCheck v cs)
+    else if kind == "ext" then boolStr (extDepCheck v cs)
+    else "bad-kind"
+  | "hmv", [st, pv] =>
+    (match handleMesonVersion (decodeStr st) (decodeStr pv) with
+     | some r => showRange r
+     | none => "ERR")
+  | "cond", [cv, e] =>
+    let c := (parseExprField e).toCond (decodeStr cv)
+    s!"{boolStr c.val};{match c.own with | some x => showRange x | none => "None"}"
   | "gateh", [pv, prog] =>
     let base := versionCheckToRange [decodeStr pv]
-    let (b, _) := parseBlock ((prog.splitOn ";").filter (fun t => !t.isEmpty))
+    let (b, _) := parseBlock [] ((prog.splitOn ";").filter (fun t => !t.isEmpty))
     showLog (runBlockH b base none).1
   | _, _ => "bad-op"
 
